@@ -5,6 +5,7 @@ mod libmc;
 mod tmomc;
 mod histmc;
 mod schedmc;
+mod heapmc;
 mod workers;
 mod run;
 mod hostobj;
@@ -53,6 +54,7 @@ fn main() {
         "tmomc" => tmomc::run(&args),
         "histmc" => histmc::run(&args),
         "schedmc" => schedmc::run(&args),
+        "heapmc" => heapmc::run(&args),
         "progmc-core" => progmc::run_profile(
             &args,
             run::RunCfg::default(),
